@@ -52,6 +52,8 @@ var c20Scripts = []string{
 	"echo twice SC2999",
 	// the interpreter prints one very long warning line (longer than any reader's line buffer) before the issues
 	"import imp LONGNOISE PF10\nprint(imp) PF11",
+	// a launcher prints a progress indicator that ends with \r, not \n: the first issue starts in mid line
+	"import re PROGRESSNOISE PF12\nprint(re) PF13",
 	// a sparse JSON object for one of the issues (no column, no level)
 	"echo sparse SC2998 and $X SC2086",
 	// an issue shellcheck locates in the first line of its input (whole-script / parse-level problems)
